@@ -32,6 +32,8 @@ type Solver struct {
 	log       io.Writer
 	bin       string
 	Errors    []string
+	nonBV     []int // per push level: number of asserted terms that are not pure bit-vector
+	tactic    bool  // use (check-sat-using qfbv) for pure bit-vector queries
 }
 
 func NewSolver(bin string, timeoutMs int, logw io.Writer) (*Solver, error) {
@@ -63,6 +65,8 @@ func (s *Solver) start() error {
 	s.cmd, s.in, s.out = cmd, in, bufio.NewReaderSize(out, 1<<16)
 	s.emitted = map[int]bool{}
 	s.nvars, s.ntables, s.nufs, s.depth = 0, 0, 0, 0
+	s.nonBV = []int{0}
+	s.tactic = !strings.Contains(s.bin, "cvc5")
 	s.send("(set-option :global-declarations true)")
 	s.send("(set-option :produce-models true)")
 	if strings.Contains(s.bin, "cvc5") {
@@ -175,6 +179,7 @@ func (s *Solver) define(t *Term) {
 func (s *Solver) Push() {
 	s.send("(push 1)")
 	s.depth++
+	s.nonBV = append(s.nonBV, 0)
 }
 
 func (s *Solver) Pop(n int) {
@@ -183,11 +188,29 @@ func (s *Solver) Pop(n int) {
 	}
 	s.send(fmt.Sprintf("(pop %d)", n))
 	s.depth -= n
+	s.nonBV = s.nonBV[:len(s.nonBV)-n]
 }
 
 func (s *Solver) Assert(t *Term) {
 	s.define(t)
 	s.send("(assert " + t.ref() + ")")
+	if t.NonBV {
+		s.nonBV[len(s.nonBV)-1]++
+	}
+}
+
+func (s *Solver) pureBV(extra []*Term) bool {
+	for _, n := range s.nonBV {
+		if n > 0 {
+			return false
+		}
+	}
+	for _, e := range extra {
+		if e.NonBV {
+			return false
+		}
+	}
+	return true
 }
 
 type Result int
@@ -216,8 +239,14 @@ func (s *Solver) Check(extra ...*Term) (Result, map[string]uint64) {
 			s.send("(assert " + e.ref() + ")")
 		}
 	}
-	s.send("(check-sat)")
+	useTactic := s.tactic && s.pureBV(extra)
+	if useTactic {
+		s.send("(check-sat-using qfbv)")
+	} else {
+		s.send("(check-sat)")
+	}
 	res := Unknown
+retry:
 	for {
 		l := s.readLine()
 		if strings.HasPrefix(l, "(error") {
@@ -236,6 +265,12 @@ func (s *Solver) Check(extra ...*Term) (Result, map[string]uint64) {
 			res = Unknown
 		}
 		break
+	}
+	if res == Unknown && useTactic {
+		// second opinion from the default (incremental) solver
+		useTactic = false
+		s.send("(check-sat)")
+		goto retry
 	}
 	var model map[string]uint64
 	if res == Sat {
